@@ -109,6 +109,38 @@ func (v vfC03ApiVal) logical() vfC03Value {
 	return l
 }
 
+// vfC03SASL is an Authenticator for a multi-round exchange: round i answers with tokens[i]
+// (null, empty or bytes, all distinct) and hands back a follow-up challenger.  It records what
+// it returned, in order: that is the logical AUTH_RESPONSE of each round.
+type vfC03SASL struct {
+	st *vfC03SASLState
+}
+
+type vfC03SASLState struct {
+	mu       sync.Mutex
+	tokens   [][]byte // nil entry = null token
+	returned [][]byte
+	round    int
+	chal     [][]byte // challenges seen
+}
+
+func (a vfC03SASL) Challenge(req []byte) ([]byte, Authenticator, error) {
+	a.st.mu.Lock()
+	defer a.st.mu.Unlock()
+	var tok []byte
+	if a.st.round < len(a.st.tokens) {
+		tok = a.st.tokens[a.st.round]
+	} else {
+		tok = []byte(fmt.Sprintf("extra-%d", a.st.round))
+	}
+	a.st.round++
+	a.st.returned = append(a.st.returned, tok)
+	a.st.chal = append(a.st.chal, append([]byte{}, req...))
+	return tok, a, nil
+}
+
+func (a vfC03SASL) Success(data []byte) error { return nil }
+
 type vfC03Sess struct {
 	t        *testing.T
 	g        *vfC03Gen
@@ -351,23 +383,64 @@ func TestVfC03Session(t *testing.T) {
 	o := vfC03NewOut(t, "c03_sess", 1)
 	defer o.close()
 	g := &vfC03Gen{r: rand.New(rand.NewSource(seed ^ 0x5e55)), id: 3000000}
-	ops, frames, unexpl, noconn := 0, 0, 0, 0
+	ops, frames, unexpl, noconn, authRounds := 0, 0, 0, 0, 0
 	for i := 0; i < nsess; i++ {
 		v := 1 + (i+int(seed))%5
 		s := &vfC03Sess{t: t, g: g, v: v, prepared: map[string]bool{}, o: o, tap: &vfC03Tap{}}
-		if g.chance(0.3) {
+		if g.chance(0.4) {
 			s.comp = 1
 		}
 		if g.chance(0.5) {
 			s.ks = "ks1"
 		}
 		node := vfNewNode(&vfCluster{}, vfDesc(1))
-		node.Supported = map[string][]string{"CQL_VERSION": {"3.4.5"}, "COMPRESSION": {"snappy", vfC03Comp{}.Name()}}
+		// the server's SUPPORTED set does / does not contain the configured compressor
+		advertised := g.chance(0.7)
+		node.Supported = map[string][]string{"CQL_VERSION": {"3.4.5"}, "COMPRESSION": {"snappy", "lz4"}}
+		if advertised {
+			node.Supported["COMPRESSION"] = []string{"snappy", vfC03Comp{}.Name()}
+		}
+		configured := s.comp == 1
+		if !(configured && advertised) {
+			s.comp = 0 // compression is negotiated only if configured AND advertised
+		}
+		// authentication: 0-3 challenge rounds after the first AUTH_RESPONSE
+		var sasl *vfC03SASLState
+		rounds := 0
+		if g.chance(0.45) {
+			rounds = g.pick(0, 1, 1, 2, 3)
+			sasl = &vfC03SASLState{}
+			for r := 0; r <= rounds; r++ {
+				switch {
+				case r > 0 && g.chance(0.15):
+					sasl.tokens = append(sasl.tokens, nil)
+				case g.chance(0.1):
+					sasl.tokens = append(sasl.tokens, []byte{})
+				default:
+					sasl.tokens = append(sasl.tokens, append([]byte{byte(r), 0, 'u'}, vfC03B(g.bytes(g.pick(1, 6, 40)))...))
+				}
+			}
+			node.AuthClass = "org.apache.cassandra.auth.PasswordAuthenticator"
+		}
+		var amu sync.Mutex
+		answered := map[int]int{} // node connection -> AUTH_RESPONSE frames seen
 		node.Decompress = func(name string, body []byte) ([]byte, error) { return vfC03Comp{}.Decode(body) }
 		node.OnFrame = func(nc *vfNodeConn, f *vfFrame, q *vfRequest) { s.tap.add(f) }
 		node.Handler = func(nc *vfNodeConn, f *vfFrame, q *vfRequest) bool {
-			if f.Op == vfOpPrepare {
+			switch f.Op {
+			case vfOpPrepare:
 				nc.Reply(f, vfOpResult, vfC03PreparedBody(f.Version, []byte("id:"+q.Stmt), strings.Count(q.Stmt, "?")))
+				return true
+			case vfOpAuthResponse:
+				amu.Lock()
+				answered[nc.ID]++
+				k := answered[nc.ID]
+				amu.Unlock()
+				if k <= rounds {
+					nc.Reply(f, vfOpAuthChallenge, (&vfW{}).Bytes([]byte(fmt.Sprintf("challenge-%d", k))).b)
+				} else {
+					nc.Reply(f, vfOpAuthSuccess, (&vfW{}).Bytes(nil).b)
+				}
 				return true
 			}
 			return false
@@ -375,8 +448,11 @@ func TestVfC03Session(t *testing.T) {
 		skipMeta := g.chance(0.5)
 		cql := string(vfC03B(g.text(g.pick(3, 5, 8))))
 		sess, _, err := vfSingleNodeSession(node, v, func(cfg *ClusterConfig) {
-			if s.comp == 1 {
+			if configured {
 				cfg.Compressor = vfC03Comp{}
+			}
+			if sasl != nil {
+				cfg.Authenticator = vfC03SASL{st: sasl}
 			}
 			cfg.Keyspace = s.ks
 			cfg.DisableSkipMetadata = !skipMeta
@@ -391,22 +467,42 @@ func TestVfC03Session(t *testing.T) {
 			continue
 		}
 		s.sess = sess
-		// the handshake the connection performed: OPTIONS, then STARTUP with what the caller configured
-		if hs := s.tap.since(0); len(hs) >= 2 {
-			oc := s.base("OPTIONS")
-			st := s.base("STARTUP")
-			st.Smap = []vfC03SKV{{K: vfC03I([]byte("CQL_VERSION")), V: vfC03I([]byte(cql))},
-				{K: vfC03I([]byte("DRIVER_NAME")), V: vfC03I([]byte(driverName))},
-				{K: vfC03I([]byte("DRIVER_VERSION")), V: vfC03I([]byte(driverVersion))}}
-			if s.comp == 1 {
-				st.Smap = append(st.Smap, vfC03SKV{K: vfC03I([]byte("COMPRESSION")), V: vfC03I([]byte(vfC03Comp{}.Name()))})
+		// the handshake the connection performed: OPTIONS, STARTUP with what the caller configured
+		// (COMPRESSION only when negotiated), then one AUTH_RESPONSE per round carrying the token
+		// the authenticator returned for that round
+		hs := s.tap.since(0)
+		oc := s.base("OPTIONS")
+		st := s.base("STARTUP")
+		st.Smap = []vfC03SKV{{K: vfC03I([]byte("CQL_VERSION")), V: vfC03I([]byte(cql))},
+			{K: vfC03I([]byte("DRIVER_NAME")), V: vfC03I([]byte(driverName))},
+			{K: vfC03I([]byte("DRIVER_VERSION")), V: vfC03I([]byte(driverVersion))}}
+		if s.comp == 1 {
+			st.Smap = append(st.Smap, vfC03SKV{K: vfC03I([]byte("COMPRESSION")), V: vfC03I([]byte(vfC03Comp{}.Name()))})
+		}
+		expect := []*vfC03Case{oc, st}
+		if sasl != nil {
+			sasl.mu.Lock()
+			for _, tok := range sasl.returned {
+				a := s.base("AUTH_RESPONSE")
+				if tok == nil {
+					a.Tok.Nul = 1
+				} else {
+					a.Tok.B = vfC03I(tok)
+				}
+				expect = append(expect, a)
 			}
-			for j, c := range []*vfC03Case{oc, st} {
+			sasl.mu.Unlock()
+		}
+		if len(hs) >= len(expect) && (sasl == nil || len(expect) == 2+rounds+1) {
+			for j, c := range expect {
 				vfC03Norm(c)
 				c.Stream, c.Bytes = hs[j].Stream, vfC03I(hs[j].Raw)
 				o.put(t, c)
 				s.frames++
 			}
+			authRounds += len(expect) - 2
+		} else {
+			s.unexpl++
 		}
 		for k, n := 0, g.pick(2, 3, 4); k < n; k++ {
 			if g.chance(0.7) {
@@ -420,4 +516,5 @@ func TestVfC03Session(t *testing.T) {
 		ops, frames, unexpl = ops+s.ops, frames+s.frames, unexpl+s.unexpl
 	}
 	fmt.Printf("VFC03 session sessions=%d noconnect=%d ops=%d frames=%d unexplained=%d\n", nsess, noconn, ops, frames, unexpl)
+	fmt.Printf("VFC03 auth_responses=%d\n", authRounds)
 }
